@@ -245,6 +245,9 @@ luaL_setfuncs({LUA_state_var}, {LUA_class_reg}, 0);
             nargs = 0
             in_args = []
             out_args = []
+            if not is_dtor:
+                # Overloads may differ in having a result.
+                CXX_subprogram = function.ast.get_subprogram()
             for arg in function.ast.params:
                 arg_typemap = arg.typemap
                 if arg.init is not None:
